@@ -167,9 +167,9 @@ CLAIMS = {
   'design_ref': 'DESIGN.md §5 C10',
   'technique': 'Lean 4 soundness proof of a may-alias analysis over an effects language + effect programs regenerated from the Python source of every public function/class (kernel-evaluated acceptance) + deep-snapshot sweep of the public API on the implementation',
   'text': 'Proved in Lean: for the effects language (assign / fresh / in-place write / sequence / branch / loop) with non-deterministic big-step semantics, if the may-alias analysis accepts a program then on every execution path, for any number of loop iterations (and, for a class, any sequence of method calls after construction), the abstract state over-approximates which caller buffers each variable points to and no caller-supplied buffer is written (absExec_sound, loop_sound, safe_no_input_write); '
-          'the analysis accepts every effect program regenerated from the current source of the public functions and classes of 37 modules - evaluated by the kernel - hence none of them writes an input in the model (all_extracted_safe, extracted_units_do_not_write_inputs). '
+          'the analysis accepts every effect program regenerated from the current source of the public functions and classes of 66 modules (129 units; 7 units excluded with stated reasons in tools/effects_scan.py: attribute descriptors, Ellipse / EllipseFitter / IsophoteList which update objects they are given by design - cf. known finding F18 - and ImageDepth, a path-correlated false positive) - evaluated by the kernel - hence none of them writes an input in the model (all_extracted_safe, extracted_units_do_not_write_inputs). '
           '[partial] the translation Python -> effects is an over-approximation with stated assumptions (library calls return new objects and do not modify their arguments except listed in-place functions; attribute/subscript reads alias their base; try bodies run entirely or not at all); it is part of the trusted base. '
-          'Tie: the effect programs are regenerated on every run; the dynamic sweep (12 API groups x ndarray / MaskedArray / Quantity / view x negatives / masked / NaN+inf data, every lazily evaluated property read, deep snapshots of arrays, masks, tables, models, kernels, footprints, apertures, estimators, NDData after return or raise) validates the abstraction and searches for concrete failing inputs.',
+          'Tie: the effect programs are regenerated on every run; the dynamic sweep (13 API groups x ndarray / MaskedArray / Quantity / view x negatives / masked / NaN+inf data, every lazily evaluated property read, deep snapshots of arrays, masks, tables, models, kernels, footprints, apertures, estimators, NDData after return or raise) validates the abstraction and searches for concrete failing inputs.',
   'note': 'Trusted: Lean kernel + standard axioms; tools/effects.py translator and its assumptions; numpy/astropy/scipy not mutating their arguments.',
  },
  'C11': {
